@@ -168,6 +168,92 @@ func checkC08(c *Ctx) {
 	ea.runE5("ERR-E5-sticky")
 	checkMergeOrder(c)
 	checkTraversalTable(c)
+	checkFastIteratorDomain(c)
+}
+
+// checkFastIteratorDomain: how the persisted-index iterator maps its logical
+// bounds onto the index key-space, for absent/present bounds × direction.
+func checkFastIteratorDomain(c *Ctx) {
+	l := c.L
+	c.rule("TABLE-index-domain", "index iterator: bounds mapped into the index key-space, direction selects the constructor", 8)
+	fn := l.Func("", "*nodeDB.getFastIterator")
+	if fn == nil {
+		c.anchorMissing("TABLE-index-domain", "nodeDB.getFastIterator")
+		return
+	}
+	for _, sNil := range []bool{true, false} {
+		for _, eNil := range []bool{true, false} {
+			for _, asc := range []bool{true, false} {
+				sNil, eNil, asc := sNil, eNil, asc
+				env := &tableEnv{l: l, flag: map[string]int{}, cmp: func(a, b string) (int, bool) { return 0, false }}
+				env.isNil = func(role string) int {
+					switch role {
+					case "arg0":
+						if sNil {
+							return 1
+						}
+						return -1
+					case "arg1":
+						if eNil {
+							return 1
+						}
+						return -1
+					}
+					return 0
+				}
+				w := &walker{vals: map[ssa.Value]int{}}
+				w.env = &walkEnv{evalAtom: func(w *walker, v ssa.Value) int {
+					if p, ok := v.(*ssa.Parameter); ok && p.Name() == "ascending" {
+						if asc {
+							return 1
+						}
+						return -1
+					}
+					return env.atom(w, v)
+				}}
+				env.recv = fn.Params[0].Name()
+				var startRole, endRole, ctor string
+				w.onCall = func(w *walker, call *ssa.Call) {
+					if call.Call.IsInvoke() && (call.Call.Method.Name() == "Iterator" || call.Call.Method.Name() == "ReverseIterator") {
+						ctor = call.Call.Method.Name()
+						startRole = roleOf(l, w.resolve(call.Call.Args[0]), env.recv, 0)
+						endRole = roleOf(l, w.resolve(call.Call.Args[1]), env.recv, 0)
+					}
+				}
+				ret, _ := w.run(fn)
+				// resolve phis by the walked path: render again with the values the walk fixed
+				wantStart := "KeyBytes(global:fastKeyFormat,[arg0])"
+				if sNil {
+					wantStart = "Key(global:fastKeyFormat,nil)"
+				}
+				wantEnd := "KeyBytes(global:fastKeyFormat,[arg1])"
+				if eNil {
+					wantEnd = "Key(global:fastKeyFormat,nil)" // with the first byte incremented (checked below)
+				}
+				wantCtor := "ReverseIterator"
+				if asc {
+					wantCtor = "Iterator"
+				}
+				ok := ret != nil && ctor == wantCtor && startRole == wantStart && endRole == wantEnd
+				c.decide("TABLE-index-domain", fmt.Sprintf("getFastIterator start absent=%v end absent=%v ascending=%v", sNil, eNil, asc), l.pos(fn.Pos()), ok,
+					ctor+"("+startRole+", "+endRole+")", "calls "+ctor+"("+startRole+", "+endRole+"), expected "+wantCtor+" with start from "+wantStart+" and end from "+wantEnd)
+			}
+		}
+	}
+	// absent end = prefix with its byte incremented: a store `x[0]++` on the end key
+	inc := false
+	allInstrs(fn, func(in ssa.Instruction) {
+		if st, ok := in.(*ssa.Store); ok {
+			if _, isIA := st.Addr.(*ssa.IndexAddr); isIA {
+				if bo, ok := stripTrivial(st.Val).(*ssa.BinOp); ok && bo.Op == token.ADD {
+					if k, isC := constInt(bo.Y); isC && k == 1 {
+						inc = true
+					}
+				}
+			}
+		}
+	})
+	c.decide("TABLE-index-domain", "absent end bound = index prefix + 1", l.pos(fn.Pos()), inc, "first byte of the prefix key incremented", "an absent end bound is not mapped to the end of the index key-space")
 }
 
 // checkTraversalTable decides the tree-walk iterator's per-node logic
